@@ -884,6 +884,30 @@ def _run(chk):
                         q, al[nm], host, "succeeds" if got_ok else "fails with %r" % (err,), "accepted" if want_ok else "rejected"),
                         {"origin": "alias body", "tag": q, "alias": {nm: al[nm]}, "template": host})
 
+    # a documented parameter name with a character next to it that is not part of the template language ("start$", "#width"):
+    # not a documented name, and not a name at all - refused
+    comp0 = impl.compiler()
+    n_stray = 0
+    for t in (x for x in tested if x.origin == "built-in" and x.category.lower() not in ("adhoc", "alias")):
+        rd = t.reading
+        names_ = [p_[0] for p_ in (rd["pos"] + rd["kwonly"])][:2]
+        for nm_ in names_:
+            for text in ("%%%s(%s$=1){x}" % (t.qualified, nm_), "%%%s(#%s=1)" % (t.qualified, nm_), "%%%s(%s@)" % (t.qualified, nm_)):
+                try:
+                    with impl.quiet_streams():
+                        comp0.compile(text)
+                    ok = True
+                except _TE:
+                    ok = False
+                except Exception:      # noqa: BLE001
+                    ok = None
+                n_stray += 1
+                chk.count(("stray-char-name", text))
+                if ok is not False:
+                    chk.oracle_fail("a parameter name with a stray character is %s: %r" % ("accepted" if ok else "not refused as a template error", text),
+                                    {"origin": "stray character next to a documented name", "tag": t.qualified, "help_line": t.line, "template": text})
+    stats["stray_character_names"] = n_stray
+
     # CLI level (real registry, then generated registry)
     per_tag = 2 if quick else 5
     cli_rejections(chk, [t for t in tested if t.origin != "generated"], per_tag, stats)
